@@ -394,21 +394,64 @@ func recAlloc(c *core.Ctx, r *core.Reporter) {
 				if rv.arg >= 0 {
 					setArg = ci.Common().Args[rv.arg]
 				} else {
-					// params struct: the VisitedFragmentNames field of the literal passed
-					if u, ok := ci.Common().Args[0].(*ssa.UnOp); ok {
-						if al, ok := u.X.(*ssa.Alloc); ok {
-							for _, vals := range core.LiteralStores(caller, core.TypeName(al.Type())) {
-								_ = vals
+					// the set travels inside a struct (collectFieldsParams.VisitedFragmentNames, or a bundle of collectInto's
+					// parameters): the map[string]bool-typed field of the literal passed
+					isSet := func(t types.Type) bool {
+						m, ok := t.Underlying().(*types.Map)
+						if !ok {
+							return false
+						}
+						b, ok := m.Elem().Underlying().(*types.Basic)
+						return ok && b.Kind() == types.Bool
+					}
+					for _, a := range ci.Common().Args {
+						if setArg != nil {
+							break
+						}
+						var al *ssa.Alloc
+						switch x := a.(type) {
+						case *ssa.UnOp:
+							al, _ = x.X.(*ssa.Alloc)
+						case *ssa.Alloc:
+							al = x
+						}
+						if al == nil {
+							continue
+						}
+						st, ok := al.Type().Underlying().(*types.Pointer).Elem().Underlying().(*types.Struct)
+						if !ok {
+							continue
+						}
+						hasSetField := false
+						for i := 0; i < st.NumFields(); i++ {
+							if isSet(st.Field(i).Type()) {
+								hasSetField = true
 							}
-							for a, st := range core.LiteralStores(caller, core.TypeName(al.Type())) {
-								if a == al && len(st["VisitedFragmentNames"]) > 0 {
-									setArg = st["VisitedFragmentNames"][0]
+						}
+						if !hasSetField {
+							continue
+						}
+						for lit, fields := range core.LiteralStores(caller, core.TypeName(al.Type())) {
+							if lit != al {
+								continue
+							}
+							for _, vals := range fields {
+								for _, v := range vals {
+									if isSet(v.Type()) {
+										setArg = v
+									}
 								}
 							}
-							if setArg == nil {
-								// field left zero: the callee creates the set lazily when nil
-								setArg = ssa.NewConst(nil, types.Typ[types.UntypedNil])
+						}
+						if setArg == nil {
+							// the struct is handed on as it was received (a copy of the caller's own parameter)
+							for _, st := range core.StoresTo(al) {
+								setArg = st.Val
 							}
+						}
+						if setArg == nil {
+							// field left zero: the callee creates the set lazily when nil
+							setArg = ssa.NewConst(nil, types.Typ[types.UntypedNil])
 						}
 					}
 				}
